@@ -296,6 +296,34 @@ fn run(sh: &mut Shard) {
             }
         }
     }
+    // every operator in its `variable op literal` forms (both orders, compound) on the variable in slot number S,
+    // for S around every power of two up to 4 096 and every S up to 300: a local of a function with S + 1
+    // variables, and the global number S (the value identifies the slot: slot k holds 1000 + k)
+    {
+        let mut slots: Vec<usize> = (0..=300).collect();
+        for k in 9..=12 {
+            let n = 1usize << k;
+            slots.extend([n - 2, n - 1, n, n + 1]);
+        }
+        for s_no in slots {
+            let decls: Vec<Stmt> = (0..=s_no).map(|k| let_(&format!("l{k}"), int(1000 + k as i64))).collect();
+            let x = format!("l{s_no}");
+            let mut uses: Vec<Expr> = Vec::new();
+            // (every operator at the slots next to a power of two, two of them elsewhere)
+            let near = s_no < 3 || (s_no + 2).is_power_of_two() || (s_no + 1).is_power_of_two() || s_no.is_power_of_two() || (s_no - 1).is_power_of_two();
+            for (i, op) in ops.iter().enumerate() {
+                if near || i == s_no % ops.len() || i == 0 {
+                    uses.push(infix(id(&x), op.clone(), int(7)));
+                    uses.push(infix(int(7), op.clone(), id(&x)));
+                }
+            }
+            let mut body = decls.clone();
+            body.push(es(op_assign(&x, Operator::Add, int(5))));
+            body.push(es(array(uses.clone())));
+            run_case(sh, "slot-numbers", &[es(call(func("", &[], body.clone()), vec![]))]);
+            run_case(sh, "slot-numbers", &body);
+        }
+    }
     let tv = type_values();
     let mut all_ops = ops.clone();
     all_ops.extend(LOGIC_OPS.iter().cloned());
